@@ -84,9 +84,6 @@ for n in (0, 1, 2):
     K(f"K.frame.arguments_{n}", "sim__frame__h.rs", f"arguments_{n}", ["C27"], ["ParameterList::get_arguments"],
       kind="bounded", bound=f"{n} parameter(s)", args=UF, group="frame", timeout=1200)
 
-K("K.frame.signature", "sim__frame__h.rs", "debug_frame_with_signature", ["C27"], ["FrameStack::set_subroutine_def", "FrameStack::get_subroutine_def", "FrameStack::push_frame", "ParameterList::get_arguments"],
-  kind="bounded", bound="one callee at the concrete address x4000, one-parameter pass-by-register signatures registered twice", args=UF, stubs=[RS], unwindset={"hashbrown": 3}, timeout=2400, tier="thorough", exploratory=True)
-
 # ------------------------------------------------------------------------------------------------ sim/device.rs
 SLOT = "<SimDevice as ExternalDevice>::{io_read,io_write,poll_interrupt,io_reset}=recording stub: arbitrary result, no access to simulator state (guaranteed by the &mut self signature)"
 K("K.device.io_read_dispatch", "sim__device__h.rs", "io_read_dispatch", ["C32"], ["DeviceHandler::io_read", "DeviceHandler::get_dev_id"], bound="4 device slots (port table fully symbolic)", stubs=[SLOT], group="dev")
